@@ -232,10 +232,11 @@ CHECKS = {
         "rule": "per key (boundary lengths 32/0/1/12/59/60/61/64/200 then random): up to six caches ({default, JIT} x {ref, SSSE3, AVX2}), a dataset built by the compiled initialiser on 16 threads with odd range boundaries (items around every range boundary and 4000 random items are compared with the light-mode item; thorough: a second dataset by the interpreter initialiser, compared in full), "
                 "and VMs {interpreter, JIT, JIT+SECURE, SECURE without JIT} x {soft, hard AES} x {light on each cache, fast on each dataset}, some with LARGE_PAGES (served by ordinary pages through the interposed mmap), a third created with RANDOMX_FLAG_V2 and switched back with clearFlagV2, the others switched with setFlagV2, a third using first/next/last batches; "
                 "each (key, input, version) digest must be identical across all configurations; then a fast-mode sweep: 64 (thorough 600) further inputs x 2 versions through the eight fast-mode classes {interpreter, JIT, JIT+SECURE, SECURE} x {soft, hard AES} (half of them batched), all equal; "
-                "non-trivial = at least 12 configurations compared (8 in the sweep); distinct by hash of the triple",
+                "then a light-mode JIT sweep: 768 (thorough 6000) further inputs x 2 versions through the light classes {JIT, JIT+SECURE} x {soft, hard AES} on 16 threads (alternating between the default and the JIT cache), each digest compared with one fast-mode VM's digest; "
+                "non-trivial = at least 12 configurations compared (8 in the fast sweep, 2 in the light sweep); distinct by hash of the triple",
         "assumptions": ["agreement says nothing about correctness (C02 ties the common value to the specification)", "large-page VM classes run with ordinary pages (no hugetlb pages in the sandbox)"],
         "level_text": "Every explored triple is hashed by 36 (quick) to 100+ (thorough) differently configured VM objects over separately prepared caches and datasets and all digests are compared. Keys and inputs are sampled: exploration.",
-        "level_note": "Quick explores one key with 6 inputs x 2 versions on the full matrix plus 64 inputs x 2 versions on the eight fast-mode classes; thorough 6 keys x 40 inputs incl. the 100 000-byte input and both dataset initialisers.",
+        "level_note": "Quick explores one key with 6 inputs x 2 versions on the full matrix plus 64 inputs x 2 versions on the eight fast-mode classes and 768 inputs x 2 versions on the four light JIT classes; thorough 6 keys x 40 inputs incl. the 100 000-byte input and both dataset initialisers.",
     },
     "C03": {
         "level": "exploration",
